@@ -111,6 +111,29 @@ Proof.
     unfold out_of_band in Hb. rewrite Hb. rewrite Hn. reflexivity.
 Qed.
 
+(* the number itself (also between knots) survives every history that neither deletes the handle nor frees
+   the vnacal_t: companion of CalTabProofs.value_stable_run, whose conclusion is RInterp = RInterp off the knots *)
+Lemma value_q_stable_run : forall ops s h p,
+  Inv s -> st_freed s = false ->
+  slot (st_pt s) h = Some p -> p_deleted p = false -> other_of (p_kind p) = None ->
+  Forall (not_free_or_delete h) ops ->
+  let s' := fst (run s ops) in
+  forall f, get_value_q (st_pt s') (Z.of_nat h) f = get_value_q (st_pt s) (Z.of_nat h) f.
+Proof.
+  induction ops as [|o r IH]; intros s h p HI Fr S D O HF; simpl.
+  - auto.
+  - inversion HF as [|? ? (NF & ND) HF']; subst.
+    pose proof (proj1 (Inv_Good s Fr) HI) as G.
+    destruct (step_good s o Fr G NF) as (G1 & Fr1 & _).
+    pose proof (step_keeps_value s o h Fr G NF ND p S D O) as (k & S1).
+    destruct (step s o) as [s1 x1] eqn:E. simpl in *.
+    assert (HI1 : Inv s1) by (apply Inv_Good; auto).
+    pose proof (IH s1 h _ HI1 Fr1 S1 eq_refl O HF') as B.
+    destruct (run s1 r) as [s2 xs]. simpl in *.
+    intros f. rewrite B. unfold get_value_q, get_param.
+    destruct (Z.ltb_spec (Z.of_nat h) 0); try lia. rewrite Nat2Z.id, S1, S, D. simpl. reflexivity.
+Qed.
+
 (* witness: three points 1, 3, 6; f = 2 lies between the knots: the integer model says RInterp, the value
    is the rational the rfi model computes; f = 3 is a knot *)
 Example values_vector_example :
